@@ -31,6 +31,12 @@ theorem push_at_most_one_more : rows.all (fun r => decide (r.push ≤ r.pop + 1)
 /-- the six frame-entering entries neither halt nor revert nor jump -/
 theorem call_ops_continue : rows.all (fun r => !entersFrame r || (!r.halts && !r.reverts && !r.jumps)) = true := by decide
 
+/-- the stipend a value call hands to the callee is covered by CallValueTransferGas, which the caller pays -/
+theorem stipend_le_transfer : callStipend ≤ callValueTransferGas := by decide
+
+/-- `callGas` takes the 63/64 branch (`gasTable.CreateBySuicide > 0`) -/
+theorem create_by_suicide_pos : 0 < gtCreateBySuicide := by decide
+
 theorem lookup_mem {op : Nat} {r : Row} (h : lookup op = some r) : r ∈ rows := by
   unfold lookup at h
   exact List.mem_of_find?_eq_some h
@@ -46,28 +52,113 @@ theorem jumps_cost_pos {r : Row} (hr : r ∈ rows) (hj : r.jumps = true) : ∃ c
 
 variable {W L : Type}
 
+/-- the law every call wrapper is shown to satisfy (`gas_bounded`): it hands back at most the gas it was handed -/
+def SubOk (sub : SubCall W) : Prop := ∀ req ro g, (sub req ro g).gas ≤ req.fwd
+
 def stepGas : StepRes W L → Nat
   | .cont f => f.gas
   | .halt r => r.gas
 
-/-- **gas_monotone** (one step): whatever the opcode and the frames below do, the frame's gas does not grow -/
-theorem step_gas_le (sem : Sem W L) (sub : SubCall W) (f : Frame W L) :
+theorem finishStep_gas (r : Row) (f : Frame W L) (g : Nat) (l' : L) (w' : W) (pc' : Nat) (gl : Glob) (wk : Nat) (i : Bool) :
+    stepGas (finishStep r f g l' w' pc' gl wk i) = g := by
+  unfold finishStep
+  repeat' split
+  all_goals rfl
+
+theorem failHere_gas (f : Frame W L) (gl : Glob) : stepGas (failHere f gl) = f.gas := rfl
+
+/-- **call-family gas discipline, part 1** (`callGas`, the rule the code uses): the gas reserved for the callee is at most
+    all but one 64th of what is left after the base price -/
+theorem callGas_63_64 (avail base requested : Nat) (hb : base ≤ avail) (ha : avail < 2 ^ 64) :
+    callGasU64 avail base requested ≤ (avail - base) - (avail - base) / 64 := by
+  unfold callGasU64
+  have h1 : base % 2 ^ 64 = base := Nat.mod_eq_of_lt (by omega)
+  have h2 : (avail + 2 ^ 64 - base) % 2 ^ 64 = avail - base := by
+    have : avail + 2 ^ 64 - base = (avail - base) + 2 ^ 64 := by omega
+    rw [this, Nat.add_mod_right]
+    exact Nat.mod_eq_of_lt (by omega)
+  simp only [h1, h2]
+  split <;> omega
+
+/-- whatever the operands, `callGas` never reserves more than the wrapped difference it computed -/
+theorem callGas_le_requested_or_cap (avail base requested : Nat) :
+    callGasU64 avail base requested ≤ requested ∨ 2 ^ 64 ≤ requested ∨
+      callGasU64 avail base requested < requested := by
+  unfold callGasU64
+  simp only []
+  split <;> omega
+
+theorem createTake_le (r : Row) (g : Nat) : createTake r g ≤ g := by
+  unfold createTake; split <;> omega
+
+/-- the base price of a call covers the stipend and the fee it records -/
+theorem callBase_covers (hv : Bool) (fee extra : Nat) : stipendOf hv + fee ≤ callBase hv fee extra := by
+  have := stipend_le_transfer
+  unfold callBase stipendOf
+  split <;> omega
+
+theorem stepPlain_gas_le (sem : Sem W L) (sub : SubCall W) (hs : SubOk sub) (f : Frame W L) (r : Row) :
+    stepGas (stepPlain sem sub f r) ≤ f.gas := by
+  unfold stepPlain
+  split
+  · simp [failHere_gas]
+  · simp only []
+    split
+    · simp [failHere_gas]
+    · split
+      · simp only [stepGas]; omega
+      · simp only [stepGas]; omega
+      · simp only [finishStep_gas]; omega
+      · split
+        · simp [failHere_gas]
+        · simp only [finishStep_gas]
+          refine Nat.le_trans (Nat.add_le_add_left (hs _ _ _) _) ?_
+          simp only []
+          have := createTake_le r (f.gas - plainCost r ‹Nat› (plainFee sem f r))
+          omega
+
+/-- **call-family gas discipline, part 2**: the callee gets `callGasTemp` (+ the stipend for a value call), which the
+    step has charged as part of `base + callGasTemp`; what comes back is at most that (`SubOk`), so the caller's gas
+    does not grow — derived from the code's rule, no clamp -/
+theorem stepCall_gas_le (sem : Sem W L) (sub : SubCall W) (hs : SubOk sub) (f : Frame W L) (r : Row) :
+    stepGas (stepCall sem sub f r) ≤ f.gas := by
+  unfold stepCall
+  split
+  · simp [failHere_gas]
+  · simp only []
+    split
+    · simp [failHere_gas]
+    · split
+      · simp [failHere_gas]
+      · split
+        · simp only [stepGas]; omega
+        · simp only [stepGas]; omega
+        · simp only [finishStep_gas]; omega
+        · simp only [finishStep_gas]
+          refine Nat.le_trans (Nat.add_le_add_left (hs _ _ _) _) ?_
+          simp only []
+          have := callBase_covers (sem.callHasValue r f.l) (callFee r (sem.callHasValue r f.l) ‹CallArgs›) (‹CallArgs›).extra
+          omega
+
+/-- **gas_monotone** (one step): whatever the opcode does, the frame's gas does not grow -/
+theorem step_gas_le (sem : Sem W L) (sub : SubCall W) (hs : SubOk sub) (f : Frame W L) :
     stepGas (step sem sub f) ≤ f.gas := by
   unfold step
-  simp only []
   repeat' split
-  all_goals simp only [stepGas]
-  all_goals omega
+  all_goals first
+    | exact stepCall_gas_le sem sub hs f _
+    | exact stepPlain_gas_le sem sub hs f _
+    | simp [failHere_gas]
 
 /-- **gas_bounded** (per frame): the gas a frame ends with is at most the gas it started with -/
-theorem runFrame_gas_le (sem : Sem W L) (sub : SubCall W) :
+theorem runFrame_gas_le (sem : Sem W L) (sub : SubCall W) (hs : SubOk sub) :
     ∀ (n : Nat) (f : Frame W L), (runFrame sem sub n f).gas ≤ f.gas := by
   intro n
   induction n with
   | zero => intro f; simp [runFrame]
   | succ n ih =>
     intro f
-    have h := step_gas_le sem sub f
+    have h := step_gas_le sem sub hs f
     unfold runFrame
     split
     · rename_i r hr; simpa [hr, stepGas] using h
@@ -81,7 +172,7 @@ theorem afterDeposit_gas_le (req : CallReq W) (r : FrameRes W) : (afterDeposit r
   all_goals (try simp only [])
   all_goals omega
 
-theorem afterSelect_gas (sem : Sem W L) (J : Journal W) (st : Bool) (sim : W → FrameRes W) (r : FrameRes W) :
+theorem afterSelect_gas (sem : Sem W L) (J : Journal W) (st : Bool) (sim : W → Glob → FrameRes W) (r : FrameRes W) :
     (afterSelect sem J st sim r).gas = r.gas := by
   unfold afterSelect
   simp only []
@@ -94,25 +185,27 @@ theorem settle_gas_le (J : Journal W) (s : J.Snap) (r : FrameRes W) : (settle J 
   all_goals simp
 
 /-- **gas_bounded** (per call tree): `evm.Call/CallCode/DelegateCall/StaticCall/create` at any depth return at most
-    the gas they were given — including the frames below them, the code deposit and the decimals() call -/
-theorem gas_bounded (sem : Sem W L) (J : Journal W) (n : Nat) (req : CallReq W) (ro : Bool) (t : Token) :
-    (callAt sem J n req ro t).gas ≤ req.fwd := by
-  cases n with
-  | zero => simp [callAt]
-  | succ n =>
-    unfold callAt
-    split
-    · split <;> simp
-    · simp only []
-      refine Nat.le_trans (settle_gas_le _ _ _) ?_
-      rw [afterSelect_gas]
-      refine Nat.le_trans (afterDeposit_gas_le _ _) ?_
-      exact runFrame_gas_le sem _ _ _
+    the gas they were given — including the frames below them, the code deposit and the decimals() call.  By induction
+    on the depth budget: each level uses the bound of the level below for `contract.Gas += returnGas`. -/
+theorem callBody_gas_le (sem : Sem W L) (J : Journal W) (sub : SubCall W) (hs : SubOk sub) : SubOk (callBody sem J sub) := by
+  intro req ro g
+  unfold callBody
+  split
+  · split <;> simp
+  · refine Nat.le_trans (settle_gas_le _ _ _) ?_
+    rw [afterSelect_gas]
+    refine Nat.le_trans (afterDeposit_gas_le _ _) ?_
+    exact runFrame_gas_le sem _ hs _ _
 
-/-- so the clamp `min res.gas fwd` in `step` never bites for the real wrappers -/
-theorem clamp_noop (sem : Sem W L) (J : Journal W) (n : Nat) (req : CallReq W) (ro : Bool) (t : Token) :
-    min (callAt sem J n req ro t).gas req.fwd = (callAt sem J n req ro t).gas :=
-  Nat.min_eq_left (gas_bounded sem J n req ro t)
+theorem callAt_subOk (sem : Sem W L) (J : Journal W) : ∀ n, SubOk (callAt sem J n) := by
+  intro n
+  induction n with
+  | zero => intro req ro g; simp [callAt]
+  | succ n ih => exact callBody_gas_le sem J _ ih
+
+theorem gas_bounded (sem : Sem W L) (J : Journal W) (n : Nat) (req : CallReq W) (ro : Bool) (g : Glob) :
+    (callAt sem J n req ro g).gas ≤ req.fwd := callAt_subOk sem J n req ro g
+
 
 /-! ## termination -/
 
@@ -120,62 +213,108 @@ theorem getOp_past_end (code : List Nat) (pc : Nat) (h : code.length ≤ pc) : g
   unfold getOp
   simp [List.getD, List.getElem?_eq_none h]
 
-/-- the frame states from which a step can continue: the op fetched is a non-halting table entry, so `pc` is inside
-    the code -/
-theorem cont_pc_inside (sem : Sem W L) (sub : SubCall W) (f f' : Frame W L)
-    (h : step sem sub f = .cont f') : f.pc < f.code.length := by
-  apply Classical.byContradiction
-  intro hge
-  have h0 := getOp_past_end f.code f.pc (Nat.le_of_not_lt hge)
-  have h1 := op0_halts
-  unfold step at h
-  rw [h0] at h
-  simp only [] at h
+theorem finishStep_cont (r : Row) (f f' : Frame W L) (g : Nat) (l' : L) (w' : W) (pc' : Nat) (gl : Glob) (wk : Nat) (i : Bool)
+    (h : finishStep r f g l' w' pc' gl wk i = .cont f') :
+    r.halts = false ∧ f' = { f with pc := pc', gas := g, l := l', w := w', glob := gl, work := wk, issued := i } := by
+  unfold finishStep at h
   split at h
   · cases h
-  · rename_i r hl
-    simp only [hl] at h1
-    repeat' split at h
-    all_goals first
-      | cases h
-      | simp_all
+  · split at h
+    · cases h
+    · rename_i hh
+      cases h
+      exact ⟨by simpa using hh, rfl⟩
 
-/-- pc moves forward unless the entry jumps; the code is kept -/
-theorem cont_pc_forward (sem : Sem W L) (sub : SubCall W) (f f' : Frame W L)
+/-- a continuing step of an entry outside the call family: the entry does not halt, the code is kept, and either the
+    pc moved forward or (a jump) at least one unit of gas was paid -/
+theorem stepPlain_cont (sem : Sem W L) (sub : SubCall W) (f f' : Frame W L) (r : Row) (hmem : r ∈ rows)
+    (h : stepPlain sem sub f r = .cont f') :
+    r.halts = false ∧ f'.code = f.code ∧ (f.pc < f'.pc ∨ f'.gas + 1 ≤ f.gas) := by
+  unfold stepPlain at h
+  split at h
+  · cases h
+  · simp only [] at h
+    split at h
+    · cases h
+    · rename_i c0 _ hge
+      split at h
+      · cases h
+      · cases h
+      · obtain ⟨hh, hf⟩ := finishStep_cont _ _ _ _ _ _ _ _ _ _ h
+        subst hf
+        refine ⟨hh, rfl, ?_⟩
+        simp only []
+        by_cases hj : r.jumps = true
+        · obtain ⟨c, hc, hc1⟩ := jumps_cost_pos hmem hj
+          right
+          simp only [plainCost, hc] at hge ⊢
+          omega
+        · left
+          simp only [hj]
+          simp
+          omega
+      · split at h
+        · cases h
+        · obtain ⟨hh, hf⟩ := finishStep_cont _ _ _ _ _ _ _ _ _ _ h
+          subst hf
+          refine ⟨hh, rfl, ?_⟩
+          left
+          simp only []
+          omega
+
+theorem stepCall_cont (sem : Sem W L) (sub : SubCall W) (f f' : Frame W L) (r : Row)
+    (h : stepCall sem sub f r = .cont f') :
+    r.halts = false ∧ f'.code = f.code ∧ f.pc < f'.pc := by
+  unfold stepCall at h
+  split at h
+  · cases h
+  · simp only [] at h
+    split at h
+    · cases h
+    · split at h
+      · cases h
+      · split at h
+        · cases h
+        · cases h
+        · obtain ⟨hh, hf⟩ := finishStep_cont _ _ _ _ _ _ _ _ _ _ h
+          subst hf
+          exact ⟨hh, rfl, by simp only []; omega⟩
+        · obtain ⟨hh, hf⟩ := finishStep_cont _ _ _ _ _ _ _ _ _ _ h
+          subst hf
+          exact ⟨hh, rfl, by simp only []; omega⟩
+
+/-- every continuing step: a non-halting table entry was fetched, so the pc is inside the code; the code is kept; the
+    pc moved forward or gas was paid -/
+theorem step_cont (sem : Sem W L) (sub : SubCall W) (f f' : Frame W L)
     (h : step sem sub f = .cont f') :
-    f'.code = f.code ∧ (f.pc < f'.pc ∨ f'.gas + 1 ≤ f.gas) := by
+    f.pc < f.code.length ∧ f'.code = f.code ∧ (f.pc < f'.pc ∨ f'.gas + 1 ≤ f.gas) := by
   unfold step at h
-  simp only [] at h
   split at h
   · cases h
   · rename_i r hl
     have hmem := lookup_mem hl
-    by_cases hj : r.jumps = true
-    · obtain ⟨c, hc, hc1⟩ := jumps_cost_pos hmem hj
-      have hnc : entersFrame r = false := by
-        have := List.all_eq_true.mp jumps_priced r hmem
-        simp [hj] at this
-        exact this.2
-      simp only [hc, hnc] at h
-      repeat' split at h
-      all_goals first
-        | (cases h; done)
-        | (cases h; refine ⟨rfl, ?_⟩; simp only []; omega)
-        | (simp_all; done)
-    · have hj' : r.jumps = false := by simpa using hj
-      simp only [hj'] at h
-      repeat' split at h
-      all_goals first
-        | (cases h; done)
-        | (cases h; refine ⟨rfl, ?_⟩; simp only []; omega)
-        | (simp_all; done)
+    have key : r.halts = false ∧ f'.code = f.code ∧ (f.pc < f'.pc ∨ f'.gas + 1 ≤ f.gas) := by
+      split at h
+      · cases h
+      · split at h
+        · cases h
+        · split at h
+          · obtain ⟨a, b, c⟩ := stepCall_cont sem sub f f' r h
+            exact ⟨a, b, Or.inl c⟩
+          · exact stepPlain_cont sem sub f f' r hmem h
+    refine ⟨?_, key.2⟩
+    apply Classical.byContradiction
+    intro hge
+    have h0 := getOp_past_end f.code f.pc (Nat.le_of_not_lt hge)
+    rw [h0] at hl
+    have h1 := op0_halts
+    simp [hl, key.1] at h1
 
 /-- a step that continues strictly decreases `(gas, |code| - pc)` -/
-theorem step_measure_lt (sem : Sem W L) (sub : SubCall W) (f f' : Frame W L)
+theorem step_measure_lt (sem : Sem W L) (sub : SubCall W) (hs : SubOk sub) (f f' : Frame W L)
     (h : step sem sub f = .cont f') : frameMeasure f' < frameMeasure f := by
-  have hgas : f'.gas ≤ f.gas := by simpa [h, stepGas] using step_gas_le sem sub f
-  have hp := cont_pc_inside sem sub f f' h
-  obtain ⟨hc, hfw⟩ := cont_pc_forward sem sub f f' h
+  have hgas : f'.gas ≤ f.gas := by simpa [h, stepGas] using step_gas_le sem sub hs f
+  obtain ⟨hp, hc, hfw⟩ := step_cont sem sub f f' h
   simp only [frameMeasure, hc]
   rcases hfw with hfw | hfw
   · have := Nat.mul_le_mul_right (f.code.length + 1) hgas
@@ -188,16 +327,24 @@ theorem step_measure_lt (sem : Sem W L) (sub : SubCall W) (f f' : Frame W L)
     generalize f.gas * (f.code.length + 1) = Y at *
     omega
 
-theorem halt_status (sem : Sem W L) (sub : SubCall W) (f : Frame W L) (r : FrameRes W)
-    (h : step sem sub f = .halt r) : r.status ≠ .outOfFuel := by
-  unfold step at h
-  simp only [] at h
+theorem finishStep_halt_status (r : Row) (f : Frame W L) (g : Nat) (l' : L) (w' : W) (pc' : Nat) (gl : Glob) (wk : Nat)
+    (i : Bool) (res : FrameRes W) (h : finishStep r f g l' w' pc' gl wk i = .halt res) : res.status ≠ .outOfFuel := by
+  unfold finishStep at h
   repeat' split at h
   all_goals (cases h; try simp)
 
+theorem halt_status (sem : Sem W L) (sub : SubCall W) (f : Frame W L) (res : FrameRes W)
+    (h : step sem sub f = .halt res) : res.status ≠ .outOfFuel := by
+  unfold step stepCall stepPlain failHere at h
+  simp only [] at h
+  repeat' split at h
+  all_goals first
+    | exact finishStep_halt_status _ _ _ _ _ _ _ _ _ _ h
+    | (cases h; simp)
+
 /-- **terminates** (one frame): with fuel above the measure `gas·(|code|+1) + (|code| − pc)` the loop ends by itself,
-    for every code, gas, opcode semantics and behaviour of the frames below -/
-theorem frame_terminates (sem : Sem W L) (sub : SubCall W) :
+    for every code, gas and opcode semantics (the frames below only have to respect `SubOk`) -/
+theorem frame_terminates (sem : Sem W L) (sub : SubCall W) (hs : SubOk sub) :
     ∀ (n : Nat) (f : Frame W L), frameMeasure f < n → (runFrame sem sub n f).status ≠ .outOfFuel := by
   intro n
   induction n with
@@ -208,11 +355,12 @@ theorem frame_terminates (sem : Sem W L) (sub : SubCall W) :
     split
     · rename_i r hr; exact halt_status sem sub f r hr
     · rename_i f' hr
-      have := step_measure_lt sem sub f f' hr
+      have := step_measure_lt sem sub hs f f' hr
       exact ih f' (by omega)
 
-theorem fuelFor_enough (code : List Nat) (gas : Nat) (l : L) (w : W) (st : Bool) (t : Token) :
-    frameMeasure ({ code := code, pc := 0, gas := gas, l := l, w := w, static := st, iss := t } : Frame W L) < fuelFor code gas := by
+theorem fuelFor_enough (code : List Nat) (gas : Nat) (l : L) (w : W) (st : Bool) (gl : Glob) (wk : Nat) (i : Bool) :
+    frameMeasure ({ code := code, pc := 0, gas := gas, l := l, w := w, static := st, glob := gl, work := wk, issued := i } : Frame W L)
+      < fuelFor code gas := by
   simp only [frameMeasure, fuelFor]; omega
 
 theorem afterDeposit_status (req : CallReq W) (r : FrameRes W) (h : r.status ≠ .outOfFuel) :
@@ -221,7 +369,7 @@ theorem afterDeposit_status (req : CallReq W) (r : FrameRes W) (h : r.status ≠
   repeat' split
   all_goals simp_all
 
-theorem afterSelect_status (sem : Sem W L) (J : Journal W) (st : Bool) (sim : W → FrameRes W) (r : FrameRes W)
+theorem afterSelect_status (sem : Sem W L) (J : Journal W) (st : Bool) (sim : W → Glob → FrameRes W) (r : FrameRes W)
     (h : r.status ≠ .outOfFuel) : (afterSelect sem J st sim r).status ≠ .outOfFuel := by
   unfold afterSelect
   simp only []
@@ -236,19 +384,19 @@ theorem settle_status (J : Journal W) (s : J.Snap) (r : FrameRes W) : (settle J 
 /-- **terminates** (whole call tree): a call wrapper at any depth budget returns ok / reverted / failed — the fuel the
     model computes from `(gas, |code|)` is never exhausted.  Depth is bounded by the budget (`CallCreateDepth`), each
     level by `frame_terminates` with the level below as `sub`. -/
-theorem call_tree_terminates (sem : Sem W L) (J : Journal W) (n : Nat) (req : CallReq W) (ro : Bool) (t : Token) :
-    (callAt sem J n req ro t).status ≠ .outOfFuel := by
+theorem call_tree_terminates (sem : Sem W L) (J : Journal W) (n : Nat) (req : CallReq W) (ro : Bool) (g : Glob) :
+    (callAt sem J n req ro g).status ≠ .outOfFuel := by
   cases n with
   | zero => simp [callAt]
   | succ n =>
-    unfold callAt
+    show (callBody sem J (callAt sem J n) req ro g).status ≠ .outOfFuel
+    unfold callBody
     split
     · simp
-    · simp only []
-      rw [settle_status]
+    · rw [settle_status]
       apply afterSelect_status
       apply afterDeposit_status
-      exact frame_terminates sem _ _ _ (fuelFor_enough _ _ _ _ _ _)
+      exact frame_terminates sem _ (callAt_subOk sem J n) _ _ (fuelFor_enough _ _ _ _ _ _ _ _)
 
 /-! ## atomicity -/
 
@@ -267,36 +415,138 @@ theorem settle_world (J : Journal W) (s : J.Snap) (r : FrameRes W) (h : (settle 
     transfer, depth limit, or a decimals() answer that does not decode — leaves the observable world exactly as it
     was when the wrapper was entered (value transfer and account creation happen after the snapshot) -/
 theorem frame_atomic (sem : Sem W L) (J : Journal W) {O : Type} (obs : W → O) (law : JournalLaw J obs)
-    (n : Nat) (req : CallReq W) (ro : Bool) (t : Token)
+    (n : Nat) (req : CallReq W) (ro : Bool) (t : Glob)
     (h : (callAt sem J n req ro t).status ≠ .ok) :
     obs (callAt sem J n req ro t).world = obs req.world := by
   cases n with
   | zero => simp [callAt]
   | succ n =>
-    unfold callAt at h ⊢
+    change (callBody sem J (callAt sem J n) req ro t).status ≠ .ok at h
+    show obs (callBody sem J (callAt sem J n) req ro t).world = obs req.world
+    unfold callBody at h ⊢
     split
     · simp
     · rename_i href
       simp only [href] at h
-      simp only [] at h ⊢
       rw [settle_world _ _ _ h]
       exact law.revert_restores _ _
 
 /-- **value_stays_with_caller**: whatever is read off the observable world — in particular the caller's balance — is
     the same after a failed call as before it: value sent into a failing frame is back with the caller -/
 theorem value_stays_with_caller (sem : Sem W L) (J : Journal W) {O : Type} (obs : W → O) (law : JournalLaw J obs)
-    (balanceOfCaller : O → Nat) (n : Nat) (req : CallReq W) (ro : Bool) (t : Token)
+    (balanceOfCaller : O → Nat) (n : Nat) (req : CallReq W) (ro : Bool) (t : Glob)
     (h : (callAt sem J n req ro t).status ≠ .ok) :
     balanceOfCaller (obs (callAt sem J n req ro t).world) = balanceOfCaller (obs req.world) := by
   rw [frame_atomic sem J obs law n req ro t h]
 
-/-! ## stack bounds and restrictions -/
+/-! ## stack bounds -/
+
+/-- the law of `execute` (instructions.go): an entry that finds its `pop` operands pops them and pushes `push` words;
+    a fresh frame starts with an empty stack -/
+structure StackLaw (sem : Sem W L) : Prop where
+  fresh : sem.stackLen sem.l0 = 0
+  next : ∀ r pc g l w l' w' j, r.pop ≤ sem.stackLen l → sem.exec r pc g l w = .next l' w' j →
+    sem.stackLen l' + r.pop = sem.stackLen l + r.push
+  call : ∀ r pc g l w req k, r.pop ≤ sem.stackLen l → sem.exec r pc g l w = .call req k →
+    ∀ res, sem.stackLen (k res) + r.pop = sem.stackLen l + r.push
+
+theorem stepPlain_stack (sem : Sem W L) (law : StackLaw sem) (sub : SubCall W) (f f' : Frame W L) (r : Row)
+    (hok : stackOk r (sem.stackLen f.l) = true) (h : stepPlain sem sub f r = .cont f') :
+    sem.stackLen f'.l ≤ stackLimit := by
+  have hok' : r.pop ≤ sem.stackLen f.l ∧ sem.stackLen f.l + r.push ≤ stackLimit + r.pop := by
+    simpa [stackOk] using hok
+  unfold stepPlain at h
+  split at h
+  · cases h
+  · simp only [] at h
+    split at h
+    · cases h
+    · split at h
+      · cases h
+      · cases h
+      · rename_i hex
+        have := law.next _ _ _ _ _ _ _ _ hok'.1 hex
+        obtain ⟨_, hf⟩ := finishStep_cont _ _ _ _ _ _ _ _ _ _ h
+        subst hf
+        simp only []
+        omega
+      · rename_i hex
+        split at h
+        · cases h
+        · obtain ⟨_, hf⟩ := finishStep_cont _ _ _ _ _ _ _ _ _ _ h
+          subst hf
+          have hc := law.call _ _ _ _ _ _ _ hok'.1 hex
+          simp only []
+          apply Nat.le_of_add_le_add_right (b := r.pop)
+          rw [hc]
+          omega
+
+theorem stepCall_stack (sem : Sem W L) (law : StackLaw sem) (sub : SubCall W) (f f' : Frame W L) (r : Row)
+    (hok : stackOk r (sem.stackLen f.l) = true) (h : stepCall sem sub f r = .cont f') :
+    sem.stackLen f'.l ≤ stackLimit := by
+  have hok' : r.pop ≤ sem.stackLen f.l ∧ sem.stackLen f.l + r.push ≤ stackLimit + r.pop := by
+    simpa [stackOk] using hok
+  unfold stepCall at h
+  split at h
+  · cases h
+  · simp only [] at h
+    split at h
+    · cases h
+    · split at h
+      · cases h
+      · split at h
+        · cases h
+        · cases h
+        · rename_i hex
+          have := law.next _ _ _ _ _ _ _ _ hok'.1 hex
+          obtain ⟨_, hf⟩ := finishStep_cont _ _ _ _ _ _ _ _ _ _ h
+          subst hf
+          simp only []
+          omega
+        · rename_i hex
+          obtain ⟨_, hf⟩ := finishStep_cont _ _ _ _ _ _ _ _ _ _ h
+          subst hf
+          have hc := law.call _ _ _ _ _ _ _ hok'.1 hex
+          simp only []
+          apply Nat.le_of_add_le_add_right (b := r.pop)
+          rw [hc]
+          omega
+
+/-- **stack_bounds_respected** (one step, through `execute`): after every continuing step of every frame the stack holds
+    at most `StackLimit` words — from the table's pops/pushes and the `validateStack` rule -/
+theorem stack_limit_step (sem : Sem W L) (law : StackLaw sem) (sub : SubCall W) (f f' : Frame W L)
+    (h : step sem sub f = .cont f') : sem.stackLen f'.l ≤ stackLimit := by
+  unfold step at h
+  split at h
+  · cases h
+  · split at h
+    · cases h
+    · rename_i hok
+      have hok' : stackOk ‹Row› (sem.stackLen f.l) = true := by simpa using hok
+      split at h
+      · cases h
+      · split at h
+        · exact stepCall_stack sem law sub f f' _ hok' h
+        · exact stepPlain_stack sem law sub f f' _ hok' h
+
+/-- the frame states reachable from `f0` by interpreter steps -/
+inductive Reach (sem : Sem W L) (sub : SubCall W) (f0 : Frame W L) : Frame W L → Prop
+  | start : Reach sem sub f0 f0
+  | next {f f'} : Reach sem sub f0 f → step sem sub f = .cont f' → Reach sem sub f0 f'
+
+/-- **stack_bounds_respected** (every frame, every step): starting from the empty stack of a fresh frame, the stack
+    never exceeds `StackLimit`, whatever the code and the frames below do -/
+theorem stack_limit_invariant (sem : Sem W L) (law : StackLaw sem) (sub : SubCall W) (f0 f : Frame W L)
+    (h0 : f0.l = sem.l0) (hr : Reach sem sub f0 f) : sem.stackLen f.l ≤ stackLimit := by
+  induction hr with
+  | start => rw [h0, law.fresh]; exact Nat.zero_le _
+  | next _ hs _ => exact stack_limit_step sem law sub _ _ hs
 
 /-- **stack_bounds_respected** (no underflow): an entry whose `pop` exceeds the stack never reaches `execute` — the
     frame fails with its gas untouched by this step -/
 theorem underflow_fails (sem : Sem W L) (sub : SubCall W) (f : Frame W L) (r : Row)
     (hl : lookup (getOp f.code f.pc) = some r) (hu : sem.stackLen f.l < r.pop) :
-    step sem sub f = .halt { status := .failed, gas := f.gas, world := f.w, iss := f.iss } := by
+    step sem sub f = failHere f f.glob := by
   unfold step
   simp only [hl]
   have : stackOk r (sem.stackLen f.l) = false := by
@@ -306,7 +556,7 @@ theorem underflow_fails (sem : Sem W L) (sub : SubCall W) (f : Frame W L) (r : R
 /-- **stack_bounds_respected** (no overflow): an entry that would lift the stack above `StackLimit` fails likewise -/
 theorem overflow_fails (sem : Sem W L) (sub : SubCall W) (f : Frame W L) (r : Row)
     (hl : lookup (getOp f.code f.pc) = some r) (ho : stackLimit + r.pop < sem.stackLen f.l + r.push) :
-    step sem sub f = .halt { status := .failed, gas := f.gas, world := f.w, iss := f.iss } := by
+    step sem sub f = failHere f f.glob := by
   unfold step
   simp only [hl]
   have : stackOk r (sem.stackLen f.l) = false := by
@@ -316,9 +566,233 @@ theorem overflow_fails (sem : Sem W L) (sub : SubCall W) (f : Frame W L) (r : Ro
 /-- an opcode outside the table ends the frame as failed (no crash, no execution) -/
 theorem invalid_op_fails (sem : Sem W L) (sub : SubCall W) (f : Frame W L)
     (hl : lookup (getOp f.code f.pc) = none) :
-    step sem sub f = .halt { status := .failed, gas := f.gas, world := f.w, iss := f.iss } := by
+    step sem sub f = failHere f f.glob := by
   unfold step
   simp only [hl]
+
+/-! ## projections of a step result -/
+
+def stepGlob : StepRes W L → Glob
+  | .cont f => f.glob
+  | .halt r => r.glob
+def stepIssued : StepRes W L → Bool
+  | .cont f => f.issued
+  | .halt r => r.issued
+def stepWork : StepRes W L → Nat
+  | .cont f => f.work
+  | .halt r => r.work
+/-- `Σ evm.fees + Σ evm.refundFees` = `RefundAllFee()` -/
+def ledger (g : Glob) : Nat := g.fees + g.refunds
+/-- the gas a frame result is worth to its caller: a failed frame's gas is burnt by the wrapper -/
+def resGas (r : FrameRes W) : Nat := if r.status == .ok || r.status == .reverted then r.gas else 0
+def effGas : StepRes W L → Nat
+  | .cont f => f.gas
+  | .halt r => resGas r
+
+theorem finishStep_proj (r : Row) (f : Frame W L) (g : Nat) (l' : L) (w' : W) (pc' : Nat) (gl : Glob) (wk : Nat) (i : Bool) :
+    stepGlob (finishStep r f g l' w' pc' gl wk i) = gl ∧ stepIssued (finishStep r f g l' w' pc' gl wk i) = i ∧
+    stepWork (finishStep r f g l' w' pc' gl wk i) = wk ∧ effGas (finishStep r f g l' w' pc' gl wk i) = g := by
+  unfold finishStep
+  repeat' split
+  all_goals simp [stepGlob, stepIssued, stepWork, effGas, resGas]
+
+theorem failHere_proj (f : Frame W L) (gl : Glob) :
+    stepGlob (failHere f gl) = gl ∧ stepIssued (failHere f gl) = f.issued ∧ stepWork (failHere f gl) = f.work ∧
+    effGas (failHere f gl) = 0 := by
+  simp [failHere, stepGlob, stepIssued, stepWork, effGas, resGas]
+
+theorem moveToRefunds_ledger (r : Row) (b : Bool) (before : Nat) (g : Glob) :
+    ledger (moveToRefunds r b before g) = ledger g ∧ (moveToRefunds r b before g).iss = g.iss := by
+  unfold moveToRefunds ledger
+  split
+  · refine ⟨?_, rfl⟩
+    simp only []
+    omega
+  · exact ⟨rfl, rfl⟩
+
+theorem oogLedger_bound (g : Glob) (gas cost fee : Nat) :
+    ledger (oogLedger g gas cost fee) ≤ ledger g + gas ∧ (oogLedger g gas cost fee).iss = g.iss ∧
+    (fee = 0 → oogLedger g gas cost fee = g) := by
+  unfold oogLedger ledger
+  split
+  · rename_i h
+    refine ⟨?_, rfl, ?_⟩
+    · simp only []; omega
+    · intro h0; omega
+  · exact ⟨by omega, rfl, fun _ => rfl⟩
+
+theorem plainFee_le_cost (sem : Sem W L) (f : Frame W L) (r : Row) (c0 : Nat) :
+    plainFee sem f r ≤ plainCost r c0 (plainFee sem f r) := by
+  unfold plainFee plainCost
+  split <;> simp
+
+theorem plainFee_static (sem : Sem W L) (f : Frame W L) (r : Row) (hw : r.writes = false) : plainFee sem f r = 0 := by
+  unfold plainFee
+  split <;> simp [hw]
+
+theorem callFee_static (r : Row) (hv : Bool) (a : CallArgs) (h : (isPlainCallOp r && hv) = false) : callFee r hv a = 0 := by
+  unfold callFee
+  simp [h]
+
+/-! ## read-only frames: no state-modifying entry executes, and read-only is inherited by every sub-frame -/
+
+/-- **static_blocks_writes**: in a read-only frame an entry with `writes = true` never reaches its gas function or
+    `execute`: the frame fails on the spot (`enforceRestrictions`) -/
+theorem static_blocks_writes (sem : Sem W L) (sub : SubCall W) (f : Frame W L) (r : Row)
+    (hl : lookup (getOp f.code f.pc) = some r) (hs : f.static = true) (hw : r.writes = true) :
+    step sem sub f = failHere f f.glob := by
+  unfold step
+  simp only [hl]
+  split
+  · rfl
+  · simp [hs, hw]
+
+/-- likewise a CALL that carries value -/
+theorem static_blocks_value_call (sem : Sem W L) (sub : SubCall W) (f : Frame W L) (r : Row)
+    (hl : lookup (getOp f.code f.pc) = some r) (hs : f.static = true) (hc : isPlainCallOp r = true)
+    (hv : sem.callHasValue r f.l = true) : step sem sub f = failHere f f.glob := by
+  unfold step
+  simp only [hl]
+  split
+  · rfl
+  · simp [hs, hc, hv]
+
+/-- the read-only flag of a frame never changes -/
+theorem step_keeps_static (sem : Sem W L) (sub : SubCall W) (f f' : Frame W L)
+    (h : step sem sub f = .cont f') : f'.static = f.static := by
+  unfold step stepCall stepPlain failHere at h
+  simp only [] at h
+  repeat' split at h
+  all_goals first
+    | (cases h; done)
+    | (obtain ⟨_, hf⟩ := finishStep_cont _ _ _ _ _ _ _ _ _ _ h; subst hf; rfl)
+
+/-- what a wrapper entered from a read-only frame guarantees: the fee ledger's total is untouched and no ISSUE ran -/
+def SubStatic (sub : SubCall W) : Prop :=
+  ∀ req g, ledger (sub req true g).glob = ledger g ∧ (sub req true g).issued = false
+
+theorem stepPlain_static (sem : Sem W L) (sub : SubCall W) (hsub : SubStatic sub) (f : Frame W L) (r : Row)
+    (hs : f.static = true) (hw : r.writes = false) (hi : isIssue r = false) :
+    ledger (stepGlob (stepPlain sem sub f r)) = ledger f.glob ∧ stepIssued (stepPlain sem sub f r) = f.issued := by
+  have hfee := plainFee_static sem f r hw
+  unfold stepPlain
+  split
+  · simp [failHere_proj]
+  · simp only [hfee]
+    split
+    · simp [failHere_proj, (oogLedger_bound _ _ _ 0).2.2 rfl]
+    · split
+      · simp [stepGlob, stepIssued, ledger]
+      · simp [stepGlob, stepIssued, ledger]
+      · simp [finishStep_proj, hi, ledger]
+      · split
+        · simp [failHere_proj]
+        · simp only [finishStep_proj, hs]
+          refine ⟨(hsub _ _).1.trans ?_, by rw [(hsub _ _).2]; simp⟩
+          simp [ledger]
+
+theorem stepCall_static (sem : Sem W L) (sub : SubCall W) (hsub : SubStatic sub) (f : Frame W L) (r : Row)
+    (hs : f.static = true) (hcv : (isPlainCallOp r && sem.callHasValue r f.l) = false) :
+    ledger (stepGlob (stepCall sem sub f r)) = ledger f.glob ∧ stepIssued (stepCall sem sub f r) = f.issued := by
+  unfold stepCall
+  split
+  · simp [failHere_proj]
+  · rename_i a _
+    have hfee := callFee_static r (sem.callHasValue r f.l) a hcv
+    simp only [hfee]
+    split
+    · simp [failHere_proj]
+    · split
+      · simp [failHere_proj, (oogLedger_bound _ _ _ 0).2.2 rfl]
+      · split
+        · simp [stepGlob, stepIssued, ledger]
+        · simp [stepGlob, stepIssued, ledger]
+        · simp [finishStep_proj, ledger]
+        · simp only [finishStep_proj, hs, (moveToRefunds_ledger _ _ _ _).1]
+          refine ⟨(hsub _ _).1.trans ?_, by rw [(hsub _ _).2]; simp⟩
+          simp [ledger]
+
+theorem step_static (sem : Sem W L) (sub : SubCall W) (hsub : SubStatic sub) (f : Frame W L) (hs : f.static = true) :
+    ledger (stepGlob (step sem sub f)) = ledger f.glob ∧ stepIssued (step sem sub f) = f.issued := by
+  unfold step
+  split
+  · simp [failHere_proj]
+  · rename_i r hl
+    split
+    · simp [failHere_proj]
+    · split
+      · simp [failHere_proj]
+      · rename_i hguard
+        simp only [hs, Bool.true_and, Bool.or_eq_true, not_or, Bool.not_eq_true] at hguard
+        split
+        · exact stepCall_static sem sub hsub f r hs hguard.2
+        · have hi : isIssue r = false := by
+            have := List.all_eq_true.mp issue_writes r (lookup_mem hl)
+            simp [hguard.1] at this
+            simpa using this
+          exact stepPlain_static sem sub hsub f r hs hguard.1 hi
+
+theorem runFrame_static (sem : Sem W L) (sub : SubCall W) (hsub : SubStatic sub) :
+    ∀ (n : Nat) (f : Frame W L), f.static = true →
+      ledger (runFrame sem sub n f).glob = ledger f.glob ∧ (runFrame sem sub n f).issued = f.issued := by
+  intro n
+  induction n with
+  | zero => intro f _; simp [runFrame]
+  | succ n ih =>
+    intro f hs
+    have h := step_static sem sub hsub f hs
+    unfold runFrame
+    split
+    · rename_i r hr; simpa [hr, stepGlob, stepIssued] using h
+    · rename_i f' hr
+      have hs' : f'.static = true := by rw [step_keeps_static sem sub f f' hr]; exact hs
+      have h2 := ih f' hs'
+      simp only [hr, stepGlob, stepIssued] at h
+      exact ⟨h2.1.trans h.1, h2.2.trans h.2⟩
+
+theorem afterDeposit_keeps (req : CallReq W) (r : FrameRes W) :
+    (afterDeposit req r).glob = r.glob ∧ (afterDeposit req r).issued = r.issued ∧ (afterDeposit req r).work = r.work ∧
+    resGas (afterDeposit req r) ≤ resGas r := by
+  unfold afterDeposit resGas
+  repeat' split
+  all_goals simp_all
+  all_goals omega
+
+theorem settle_keeps (J : Journal W) (s : J.Snap) (r : FrameRes W) :
+    (settle J s r).glob = r.glob ∧ (settle J s r).issued = r.issued ∧ (settle J s r).work = r.work ∧
+    (settle J s r).gas = resGas r := by
+  unfold settle resGas
+  repeat' split
+  all_goals simp_all
+
+/-- the decimals() frame is read-only: it leaves the ledger total alone (and cannot ISSUE) -/
+theorem afterSelect_ledger (sem : Sem W L) (J : Journal W) (st : Bool) (sim : W → Glob → FrameRes W) (r : FrameRes W)
+    (hsim : ∀ w g, ledger (sim w g).glob = ledger g) :
+    ledger (afterSelect sem J st sim r).glob = ledger r.glob ∧ resGas (afterSelect sem J st sim r) ≤ resGas r := by
+  unfold afterSelect
+  simp only []
+  split
+  · rename_i htr
+    have hok : r.status = .ok := by simp at htr; exact htr.2
+    have h := hsim r.world { r.glob with iss := some false }
+    have hl : ledger ({ (sim r.world { r.glob with iss := some false }).glob with iss := none } : Glob) = ledger r.glob := by
+      simpa [ledger] using h
+    repeat' split
+    all_goals exact ⟨hl, by simp [resGas, hok]⟩
+  · simp [ledger, resGas]
+
+theorem afterSelect_issued (sem : Sem W L) (J : Journal W) (st : Bool) (sim : W → Glob → FrameRes W) (r : FrameRes W)
+    (hsim : ∀ w g, (sim w g).issued = false) : (afterSelect sem J st sim r).issued = r.issued := by
+  unfold afterSelect
+  simp only []
+  repeat' split
+  all_goals simp [hsim]
+
+/-- a fresh read-only frame: ledger total untouched, no ISSUE (given the same of the frames below) -/
+theorem runFresh_static (sem : Sem W L) (sub : SubCall W) (hsub : SubStatic sub) (code : List Nat) (gas : Nat) (w : W) (g : Glob) :
+    ledger (runFresh sem sub code gas w true g).glob = ledger g ∧ (runFresh sem sub code gas w true g).issued = false := by
+  unfold runFresh
+  exact runFrame_static sem sub hsub _ _ rfl
 
 /-! ## the fee ledger's out-of-gas rule -/
 
@@ -341,6 +815,8 @@ theorem oogFees_bounded (rest : List Nat) (fee gas cost : Nat) :
 def workSem : Sem Nat Nat where
   stackLen := id
   gasCost := fun _ _ _ _ => some 0
+  fee := fun _ _ _ => 0
+  callArgs := fun _ _ _ => some { fee := 0, extra := 0, requested := 0 }
   callHasValue := fun _ _ => false
   exec := fun r _ _ l w => .next (l - r.pop + r.push) (w + (r.gasConst.getD 0)) none
   l0 := 0
@@ -350,11 +826,11 @@ def workJ : Journal Nat := { Snap := Unit, snap := fun _ => (), revertTo := fun 
 
 /-- `PUSH1 1; ISSUE; STOP` called with exactly the gas it needs -/
 def issueReq : CallReq Nat :=
-  { fwd := 25003, take := 0, world := 0, refuse := none, enter := id, code := [0x60, 1, 0xe0, 0x00], static := false,
+  { fwd := 25003, world := 0, refuse := none, enter := id, code := [0x60, 1, 0xe0, 0x00], static := false,
     finish := fun g w => some (g, w), simCode := fun _ => [0x60, 1, 0xe0, 0x00] }
 
-example : (callAt workSem workJ 2 issueReq false none).gas ≤ issueReq.fwd := gas_bounded _ _ _ _ _ _
-example : (callAt workSem workJ 2 issueReq false none).status ≠ .outOfFuel := call_tree_terminates _ _ _ _ _ _
+example : (callAt workSem workJ 2 issueReq false {}).gas ≤ issueReq.fwd := gas_bounded _ _ _ _ _ _
+example : (callAt workSem workJ 2 issueReq false {}).status ≠ .outOfFuel := call_tree_terminates _ _ _ _ _ _
 
 /-- a journal with full-copy snapshots satisfies the law (so `frame_atomic` is not vacuous) -/
 def copyJ : Journal Nat := { Snap := Nat, snap := id, revertTo := fun _ s => s }
@@ -365,12 +841,12 @@ example : JournalLaw copyJ (fun w => w) := ⟨fun _ _ => rfl⟩
 /-- a plain message call of `code` with `gas` in the work-counter semantics (the world counts the gas of the steps
     actually executed and is never reverted) -/
 def plainReq (code : List Nat) (gas : Nat) : CallReq Nat :=
-  { fwd := gas, take := 0, world := 0, refuse := none, enter := id, code := code, static := false,
+  { fwd := gas, world := 0, refuse := none, enter := id, code := code, static := false,
     finish := fun g w => some (g, w), simCode := fun _ => code }
 
 /-- full statement: the interpreter never executes more gas worth of steps than the call was given -/
 def C20_metered_statement : Prop :=
-  ∀ (code : List Nat) (gas depth : Nat), (callAt workSem workJ depth (plainReq code gas) false none).world ≤ gas
+  ∀ (code : List Nat) (gas depth : Nat), (callAt workSem workJ depth (plainReq code gas) false {}).world ≤ gas
 
 /-- `PUSH1 1; ISSUE; STOP` with exactly the 25003 gas it costs: after the frame returns ok the wrapper drains the
     `Issued` token and runs the contract again, read-only, with `staticCallSimulateGas` = 10^10 gas that nobody paid
@@ -383,12 +859,31 @@ theorem C20_metered_counterexample : ¬ C20_metered_statement := by
 
 /-- what does hold: the GAS ACCOUNT is sound (`gas_bounded`, `frame_terminates`, `call_tree_terminates`); and without a
     pending token the wrapper's select does nothing, so the extra work comes only from `GetUTXOChangeRate` -/
-theorem C20_metered_partial (sem : Sem W L) (J : Journal W) (st : Bool) (sim : W → FrameRes W) (r : FrameRes W)
-    (h : r.iss = none) : afterSelect sem J st sim r = r := by
+theorem C20_metered_partial (sem : Sem W L) (J : Journal W) (st : Bool) (sim : W → Glob → FrameRes W) (r : FrameRes W)
+    (h : r.glob.iss = none) : afterSelect sem J st sim r = r := by
   cases r with
-  | mk s g w i =>
-    simp only [] at h
-    subst h
-    simp [afterSelect, triggersRate]
+  | mk s g w gl wk i =>
+    cases gl with
+    | mk t fe re =>
+      simp only [] at h
+      subst h
+      simp [afterSelect, triggersRate]
+
+/-! ## non-vacuity of the laws used as hypotheses -/
+
+example : StackLaw workSem :=
+  ⟨rfl,
+   by intro r pc g l w l' w' j hp h; simp [workSem] at h hp ⊢; omega,
+   by intro r pc g l w req k _ h; simp [workSem] at h⟩
+
+/-- the wrapper that refuses everything is a (trivial) `SubOk` / `SubStatic` instance; the real ones are `callAt`
+    (`callAt_subOk`) -/
+example : SubOk (fun (req : CallReq Nat) _ g => ({ status := .failed, gas := req.fwd, world := req.world, glob := g, work := 0, issued := false } : CallRes Nat)) := by
+  intro req ro g; simp
+
+example : SubStatic (fun (req : CallReq Nat) _ g => ({ status := .failed, gas := req.fwd, world := req.world, glob := g, work := 0, issued := false } : CallRes Nat)) := by
+  intro req g; simp
+
+example : callGasU64 6400 0 (2 ^ 200) = 6300 := by decide
 
 end Props.C20
